@@ -490,4 +490,26 @@ theorem dispatch_rvm_wx (c : Model.X86.Ctx) (row : Row) (options : BitVec 32) (t
         options (packRegVvvvv i0 i1) m 0 0 := by
   constructor <;> simp [dispatch, henc, sig3, Op.kind, Op.id, Op.rmSize]
 
+/-! ### classes VexRvm_Lx_KEvex, VexRvmi_KEvex, VexRvmi_Lx_KEvex (vpcmp*, vcmp*, ... whose EVEX form writes a mask register): their entries are
+part of the `rvm` / `rvmi` chunks (`finalOp` sets the force-EVEX bit for a mask destination); the class switches: -/
+
+theorem dispatch_kevex (c : Model.X86.Ctx) (row : Row) (options : BitVec 32) (t0 t1 t2 i0 i1 i2 : Nat) (m : Mem) (imm : BitVec 64) :
+    (row.encoding = 0x76 → dispatch c row options (.reg t0 i0) (.reg t1 i1) (.reg t2 i2) .none =
+        emitVexEvexR c ((row.mainOp ||| (b2w (Op.reg t0 i0).isMask <<< 12)) ||| opcodeLBySize ((Op.reg t0 i0).rmSize ||| (Op.reg t1 i1).rmSize))
+          options (packRegVvvvv i0 i1) (r32 i2) 0 0) ∧
+    (row.encoding = 0x76 → dispatch c row options (.reg t0 i0) (.reg t1 i1) (.mem m) .none =
+        emitVexEvexM c ((row.mainOp ||| (b2w (Op.reg t0 i0).isMask <<< 12)) ||| opcodeLBySize ((Op.reg t0 i0).rmSize ||| (Op.reg t1 i1).rmSize))
+          options (packRegVvvvv i0 i1) m 0 0) ∧
+    (row.encoding = 0x7b → dispatch c row options (.reg t0 i0) (.reg t1 i1) (.reg t2 i2) (.imm imm) =
+        emitVexEvexR c (row.mainOp ||| (b2w (Op.reg t0 i0).isMask <<< 12)) options (packRegVvvvv i0 i1) (r32 i2) imm 1) ∧
+    (row.encoding = 0x7b → dispatch c row options (.reg t0 i0) (.reg t1 i1) (.mem m) (.imm imm) =
+        emitVexEvexM c (row.mainOp ||| (b2w (Op.reg t0 i0).isMask <<< 12)) options (packRegVvvvv i0 i1) m imm 1) ∧
+    (row.encoding = 0x7d → dispatch c row options (.reg t0 i0) (.reg t1 i1) (.reg t2 i2) (.imm imm) =
+        emitVexEvexR c ((row.mainOp ||| (b2w (Op.reg t0 i0).isMask <<< 12)) ||| opcodeLBySize ((Op.reg t0 i0).rmSize ||| (Op.reg t1 i1).rmSize))
+          options (packRegVvvvv i0 i1) (r32 i2) imm 1) ∧
+    (row.encoding = 0x7d → dispatch c row options (.reg t0 i0) (.reg t1 i1) (.mem m) (.imm imm) =
+        emitVexEvexM c ((row.mainOp ||| (b2w (Op.reg t0 i0).isMask <<< 12)) ||| opcodeLBySize ((Op.reg t0 i0).rmSize ||| (Op.reg t1 i1).rmSize))
+          options (packRegVvvvv i0 i1) m imm 1) := by
+  refine ⟨?_, ?_, ?_, ?_, ?_, ?_⟩ <;> intro h <;> simp [dispatch, h, sig3, sig4, Op.kind, Op.id, Op.rmSize, Op.immVal]
+
 end AsmjitVerif.Props.C01
